@@ -18,7 +18,7 @@ Import ListNotations.
 Open Scope Z_scope.
 """
 
-KINDS = ["int", "str", "list", "dict", "spec", "meth", "clsfun", "func", "class", "module"]
+KINDS = ["int", "str", "list", "dict", "spec", "meth", "clsfun", "func", "class", "module", "klist", "kset"]
 CLS_ID = {"Inner": 0, "Base": 1, "Sub": 2, "Plain": 3, "Keyed": 4, "Frozen": 5, "Shared": 6}
 LONG = "ab" * 60
 
@@ -47,11 +47,14 @@ def decl(a):
     n, k = a["name"], a["kind"]
     if k == "clsfun":
         return [f"    {n}: Any", f"    def {n}(self): return {attr_id(n)}"]
-    ann = {"int": "int", "str": "str", "list": "list", "dict": "dict", "spec": "Inner"}.get(k, "Any")
+    ann = {"int": "int", "str": "str", "list": "list", "dict": "dict", "spec": "Inner",
+           "klist": "KeyedList[Keyed, str]", "kset": "KeyedSet[Keyed, str]"}.get(k, "Any")
     args = []
     if a.get("default"):
         d = {"int": "default=1", "str": "default='a'", "list": "default_factory=list",
-             "dict": "default_factory=dict", "spec": "default_factory=Inner"}.get(k, "default=None")
+             "dict": "default_factory=dict", "spec": "default_factory=Inner",
+             "klist": "default_factory=lambda: KeyedList[Keyed, str]()",
+             "kset": "default_factory=lambda: KeyedSet[Keyed, str]()"}.get(k, "default=None")
         args.append(d)
     for flag in ("compare", "repr", "init"):
         if not a.get(flag, True):
@@ -99,10 +102,12 @@ def redefault_decl(fam, rd):
 
 def family_source(fam):
     src = ["from typing import Any", "from spec_classes import spec_class, Attr",
+           "from spec_classes.types import KeyedList, KeyedSet",
            "import types as M0, json as M1",
            "def F0(): pass", "def F1(): pass", "class K0: pass", "class K1: pass",
            "@spec_class", "class Inner:", "    p: int = 0",
            "    q: Any = Attr(default=None, compare=False)",
+           "@spec_class(key='k')", "class Keyed:", "    k: Any", "    b0: Any = None",
            "@spec_class", "class Base:"]
     dnc = [a["name"] for a in fam["attrs"] if a.get("dnc")]
     if dnc:       # (Attr(do_not_copy=True) on the attribute itself is overridden by the decorator argument)
@@ -118,7 +123,6 @@ def family_source(fam):
     if not fam.get("sub_attrs") and not fam.get("sub_redefault"):
         src += ["    pass"]
     src += ["class Plain(Base):", "    pass"]
-    src += ["@spec_class(key='k')", "class Keyed:", "    k: Any", "    b0: Any = None"]
     src += ["@spec_class(frozen=True)", "class Frozen:", "    f0: Any = None"]
     src += ["@spec_class(do_not_copy=True)", "class Shared:", "    f0: Any = None"]
     return "\n".join(src) + "\n"
@@ -173,6 +177,22 @@ class Family:
             return getattr(holder, f"meth{r[1]}")
         if t == "inner":
             return self.instance({"cls": "Inner", "attrs": r[1]})
+        if t == "keyed":                         # a keyed spec instance; "k": ["unset"] = key deleted
+            d = r[1]
+            k = d.get("k", ["str", "a"])
+            x = self.classes["Keyed"](k=0 if k[0] == "unset" else self.build(k))
+            if "b0" in d:
+                x.b0 = self.build(d["b0"])
+            if k[0] == "unset":
+                del x.k
+            return x
+        if t in ("klist", "kset"):               # KeyedList / KeyedSet of keyed items
+            items = [self.build(["keyed", {kk: vv for kk, vv in d.items() if kk != "drop_k"}]) for d in r[1]]
+            c = self.ns["KeyedList" if t == "klist" else "KeyedSet"][self.classes["Keyed"], str](items)
+            for it, d in zip(items, r[1]):
+                if d.get("drop_k"):              # key deleted after the item was stored
+                    del it.k
+            return c
         raise AssertionError(r)
 
     def instance(self, st):
@@ -204,6 +224,10 @@ class Family:
             return f"(VInt {cz(v)})"
         if isinstance(v, str):
             return f"(VStr {str_id(v)})"
+        if isinstance(v, self.ns["KeyedList"]):    # for ==: the list of its items
+            return "(VList " + clist(list(v._list), lambda x: self.val(x, None)) + ")"
+        if isinstance(v, self.ns["KeyedSet"]):     # for ==: the mapping key -> item
+            return "(VDict " + clist(v._dict.items(), lambda kv: f"({self.val(kv[0])}, {self.val(kv[1], None)})") + ")"
         if isinstance(v, list):
             return "(VList " + clist(v, lambda x: self.val(x, None)) + ")"
         if isinstance(v, tuple):
@@ -337,6 +361,9 @@ def build_graph(F, g):
             for name, r in nd[2].items():
                 if r[0] == "missing":
                     continue
+                if r[0] == "unset":                  # really absent (also the constructor's value)
+                    object.__getattribute__(objs[i], "__dict__").pop(name, None)
+                    continue
                 object.__getattribute__(objs[i], "__dict__")[name] = ref(r)
     return objs[g["root"]]
 
@@ -465,9 +492,13 @@ class ReprParser:
                 if self.at("}"):
                     self.i += 1
                     return {"kind": 7, "items": items}
-                self.value()
-                self.expect(":")
-                items.append(self.value())
+                first = self.value()
+                self.ws()
+                if self.at(":"):
+                    self.i += 1
+                    items.append(self.value())
+                else:                                # set form: {item, item}
+                    items.append(first)
                 self.ws()
                 if self.at(","):
                     self.i += 1
@@ -481,6 +512,19 @@ class ReprParser:
         if not word:
             raise ValueError(f"cannot parse at {self.i}: {t[self.i:self.i + 30]!r}")
         self.i = j
+        if word in ("KeyedList", "KeyedSet"):       # type_label(...)(<list or set form>)
+            if self.at("["):
+                depth = 0
+                while True:
+                    c = t[self.i]
+                    depth += (c == "[") - (c == "]")
+                    self.i += 1
+                    if depth == 0:
+                        break
+            self.expect("(")
+            inner = self.value()
+            self.expect(")")
+            return inner
         if self.at("("):
             self.i += 1
             indented = self.at("\n")
@@ -621,12 +665,40 @@ def run_case(F, case):
         o_f = obs_repr(lambda: x.__repr__(indent=False))
         o_t = obs_repr(lambda: x.__repr__(indent=True))
         o_n = obs_repr(lambda: repr(x))
+        if reaches_keyed_container(F, x):
+            # KeyedList / KeyedSet are outside the Coq heap model: the property oracle (no exception,
+            # exactly the declared repr-enabled attributes in order) is evaluated here
+            cn = F.by_cls[type(x)]
+            want = [attr_id(a["name"]) for a in attrs_of(F.desc, cn) if a["kind"] == "clsfun" or a.get("repr", True)]
+            ok = all(o[0] == 1 and o[2] == want for o in (o_f, o_t, o_n))
+            STATS["repr:python-side-oracle(keyed containers)"] = STATS.get("repr:python-side-oracle(keyed containers)", 0) + 1
+            return "py", 0 if ok else 2, {"indent=False": o_f[4], "indent=True": o_t[4], "indent=None": o_n[4]}
         heap, _ = heap_terms(F, x)
         STATS["repr:modes-compared-as-full-tree"] = STATS.get("repr:modes-compared-as-full-tree", 0) + sum(1 for o in (o_f, o_t, o_n) if o[5])
         STATS["repr:modes-compared-two-levels-only"] = STATS.get("repr:modes-compared-two-levels-only", 0) + sum(1 for o in (o_f, o_t, o_n) if not o[5])
         term = f"mk_repr {ct} {heap} 0%nat {robs_term(o_f)} {robs_term(o_t)} {robs_term(o_n)}"
         return "check_repr", term, {"indent=False": o_f[4], "indent=True": o_t[4], "indent=None": o_n[4]}
     raise AssertionError(k)
+
+
+def reaches_keyed_container(F, root):
+    seen, todo = set(), [root]
+    while todo:
+        o = todo.pop()
+        if id(o) in seen:
+            continue
+        seen.add(id(o))
+        if isinstance(o, (F.ns["KeyedList"], F.ns["KeyedSet"])):
+            return True
+        if isinstance(o, (list, tuple)):
+            todo += list(o)
+        elif isinstance(o, dict):
+            todo += list(o.values())
+        elif F.is_spec(o):
+            todo += list(object.__getattribute__(o, "__dict__").values())
+        elif inspect.ismethod(o):
+            todo.append(o.__self__)
+    return False
 
 
 STATS = {}
@@ -682,9 +754,14 @@ def evaluate(fams, cases, tag="c", shard=250):
         if bad:
             logs.append(f"class table of family {fid} differs from its description: {bad}")
     groups = {}
+    pyside = []
     for i, c in enumerate(cases):
         fn, term, obs = run_case(built[c["fam"]], c)
-        groups.setdefault(fn, []).append((c["fam"], i, term, obs))
+        if fn == "py":
+            if term:
+                pyside.append((i, term, obs))
+        else:
+            groups.setdefault(fn, []).append((c["fam"], i, term, obs))
         key = c["kind"] + ":" + (json.dumps(obs) if c["kind"] != "repr" else
                                  "/".join("indented" if v.startswith(("Base(\n", "Sub(\n", "Plain(\n")) else "one-line"
                                           for v in obs.values()))
@@ -698,7 +775,7 @@ def evaluate(fams, cases, tag="c", shard=250):
             shards.append((prelude, fn, CASE_TYPE[fn], [t[2] for t in part]))
             index.append(part)
     b, lg = coq_eval_grouped(shards, tag)
-    out = [(index[k][j][1], code, index[k][j][3]) for k, j, code in b]
+    out = [(index[k][j][1], code, index[k][j][3]) for k, j, code in b] + pyside
     return out, logs + lg
 
 
@@ -713,13 +790,27 @@ def values_for(kind, rng):
         return [["list", [["int", 1]]], ["list", []], ["list", [["int", 1], ["list", [["str", "a"]]]]],
                 ["list", [["inner", {"p": ["int", 1]}]]], ["list", [["inner", {"p": ["int", 1], "q": ["int", 9]}]]],
                 ["list", [["bool", True]]], ["list", [["tuple", [["int", 1], ["none"]]]]],
-                ["list", [["speccls", "Base"], ["speccls", "Keyed"]]], ["list", [["speccls", "Inner"], ["class", 0]]]]
+                ["list", [["speccls", "Base"], ["speccls", "Keyed"]]], ["list", [["speccls", "Inner"], ["class", 0]]],
+                ["list", [["keyed", {"k": ["unset"]}]]], ["list", [["keyed", {"k": ["str", "a"]}], ["keyed", {"k": ["unset"], "b0": ["int", 1]}]]],
+                ["list", [["keyed", {"k": ["str", "a"], "b0": ["int", 1]}]]]]
     if kind == "dict":
         return [["dict", [[["str", "a"], ["int", 1]]]], ["dict", []],
                 ["dict", [[["str", "a"], ["int", 1]], [["str", "b"], ["int", 2]]]],
                 ["dict", [[["str", "b"], ["int", 2]], [["str", "a"], ["int", 1]]]],
                 ["dict", [[["int", 1], ["list", [["int", 1]]]]]], ["dict", [[["bool", True], ["list", [["int", 1]]]]]],
-                ["dict", [[["str", "a"], ["speccls", "Base"]]]], ["dict", [[["str", "a"], ["speccls", "Keyed"]]]]]
+                ["dict", [[["str", "a"], ["speccls", "Base"]]]], ["dict", [[["str", "a"], ["speccls", "Keyed"]]]],
+                ["dict", [[["str", "a"], ["keyed", {"k": ["unset"]}]]]], ["dict", [[["str", "a"], ["keyed", {"k": ["str", "a"]}]]]]]
+    if kind in ("klist", "kset"):
+        A1, B2 = {"k": ["str", "a"], "b0": ["int", 1]}, {"k": ["str", "b"], "b0": ["int", 2]}
+        vs = [[A1, B2],                                            # the first two differ in a NON-KEY attribute of one item
+              [A1, {"k": ["str", "b"], "b0": ["int", 3]}],
+              [A1, {"k": ["str", "c"], "b0": ["int", 2]}],          # one item's key differs
+              [B2, A1],                                            # order (list: unequal, set: equal)
+              [A1], [],
+              [A1, {"k": ["str", "b"], "b0": ["list", [["int", 2]]]}],
+              [A1, {"k": ["str", "b"], "b0": ["int", 2], "drop_k": True}],   # key deleted after insertion
+              [{"k": ["str", "a"]}, B2]]                           # b0 left at its default
+        return [[kind, v] for v in vs]
     if kind == "spec":
         return [["inner", {"p": ["int", 1]}], ["inner", {"p": ["int", 2]}], ["inner", {"p": ["int", 1], "q": ["str", "a"]}],
                 ["inner", {}]]
@@ -728,12 +819,14 @@ def values_for(kind, rng):
     if kind == "clsfun":
         return [["default"], ["meth", 0], ["func", 0], ["meth", 1]]
     if kind == "func":
-        return [["func", 0], ["func", 1], ["none"], ["speccls", "Inner"]]
+        return [["func", 0], ["func", 1], ["none"], ["speccls", "Inner"], ["keyed", {"k": ["unset"]}],
+                ["keyed", {"k": ["str", "a"]}]]
     if kind == "class":
         return [["speccls", "Base"], ["speccls", "Keyed"], ["class", 0], ["speccls", "Inner"], ["class", 1],
                 ["speccls", "Sub"], ["speccls", "Plain"]]
     if kind == "module":
-        return [["module", 0], ["module", 1], ["none"], ["speccls", "Keyed"]]
+        return [["module", 0], ["module", 1], ["none"], ["speccls", "Keyed"], ["keyed", {"k": ["unset"], "b0": ["int", 1]}],
+                ["keyed", {"k": ["int", 1], "b0": ["int", 1]}]]
     raise AssertionError(kind)
 
 
@@ -757,7 +850,7 @@ def gen_family(rng, kinds=None, flags=None):
         sub = [{"name": "b0", "kind": k, "compare": rng.random() < 0.7, "repr": rng.random() < 0.7,
                 "default": True, "init": True}]
     rds = []
-    cand = [a for a in attrs if a["kind"] != "clsfun"]
+    cand = [a for a in attrs if a["kind"] not in ("clsfun", "klist", "kset")]
     if kinds is None and cand and rng.random() < 0.7:
         for a in rng.sample(cand, min(len(cand), rng.choice((1, 1, 2)))):
             form = rng.choice(("plain", "plain", "plain", "annot", "attr"))
@@ -847,6 +940,18 @@ def repr_graphs(rng, fam):
         out.append(dict(g(pad([["n", 1]] + tail), [["list", [["speccls", "Base"], ["speccls", "Keyed"], ["speccls", "Inner"]] + tail]]), must=True))
         out.append(dict(g(pad([["n", 1]] + tail), [["dict", [[["str", "o"], ["speccls", "Base"]], [["str", "k"], ["speccls", "Keyed"]]] + ([[["str", "l"], L]] if longv else [])]]), must=True))
         out.append(dict(g(pad([["n", 1]] + tail), [["tuple", [["speccls", "Base"], ["n", 2]]], ["list", [["speccls", SUB], ["n", 0]]]]), must=True))
+        # nested KEYED children whose key (or other attribute) is missing: directly, in a list, in a
+        # dict, in a tuple, next to a child that has its key, and referring back to the root
+        MK = ["inst", "Keyed", {"k": ["unset"]}]
+        out.append(dict(g(pad([["n", 1]] + tail), [MK]), must=True))
+        out.append(dict(g(pad([["n", 1]] + tail), [["list", [["n", 2], ["n", 3]]], MK, ["inst", "Keyed", {"k": ["str", "a"], "b0": ["unset"]}]]), must=True))
+        out.append(dict(g(pad([["n", 1]] + tail), [["dict", [[["str", "m"], ["n", 2]]]], ["inst", "Keyed", {"k": ["unset"], "b0": ["n", 0]}]]), must=True))
+        out.append(dict(g(pad([["n", 1]] + tail), [["tuple", [["n", 2]]], MK]), must=True))
+        out.append(dict(g(pad([["n", 1]] + tail), [["inst", "Inner", {"p": ["unset"], "q": ["n", 2]}], MK]), must=True))
+        # the same inside KeyedList / KeyedSet attribute values (python-side oracle)
+        for kc in ("klist", "kset"):
+            out.append(dict(g(pad([[kc, [{"k": ["str", "a"], "drop_k": True}, {"k": ["str", "b"], "b0": ["int", 2]}]]] + tail)), must=True))
+            out.append(dict(g(pad([["list", [[kc, [{"k": ["str", "a"], "drop_k": True}]]]]] + tail)), must=True))
         # x.a = x
         out.append(g(pad([["n", 0]] + tail)))
         # x.a = [x]; x.a = (x,) ; x.a = {"k": x}
@@ -939,6 +1044,39 @@ def generate(rng, tier):
             cases.append({"kind": "repr", "fam": fid, "gen": "repr-state",
                           "graph": {"nodes": [["inst", st["cls"], {k: v for k, v in st["attrs"].items()
                                                                   if v[0] not in ("default", "deleted", "meth", "inner")}]], "root": 0}})
+    # attribute values that are KeyedList / KeyedSet of keyed spec items: all pairs over values that
+    # differ in a non-key attribute of one item, in one item's key, in order, in length
+    for kc in ("klist", "kset"):
+        for cmpf in (True, False):
+            fam = {"attrs": [{"name": "a0", "kind": "int", "compare": True, "repr": True, "init": True, "default": True},
+                             {"name": "a1", "kind": kc, "compare": cmpf, "repr": True, "init": True, "default": cmpf},
+                             {"name": "a2", "kind": "str", "compare": True, "repr": True, "init": True, "default": True}],
+                   "sub_attrs": [{"name": "b0", "kind": "kset" if kc == "klist" else "klist", "compare": True, "repr": True,
+                                  "default": True, "init": True}],
+                   "sub_redefault": [{"name": "a2", "form": "plain"}]}
+            fid = add_family(fam)
+            vals = values_for(kc, rng)
+            for cname in ("Base", "Sub"):
+                prs = [(u, v) for u in vals for v in vals]
+                if quick and cname == "Sub":
+                    prs = rng.sample(prs, 20)
+                for u, v in prs:
+                    sa = {"cls": cname, "attrs": {"a0": ["int", 1], "a1": u, "a2": ["str", "a"]}}
+                    sb = {"cls": cname, "attrs": {"a0": ["int", 1], "a1": v, "a2": ["str", "a"]}}
+                    cases.append({"kind": "eq", "fam": fid, "a": sa, "b": sb, "gen": "keyed-container-pair"})
+            for a, b, which in one_diff_pairs(fam, "Sub"):
+                cases.append({"kind": "eq", "fam": fid, "a": a, "b": b, "gen": "keyed-container-pair", "diff": which})
+            for v in vals:
+                st = {"cls": "Base", "attrs": {"a0": ["int", 2], "a1": v, "a2": ["str", "b"]}}
+                if "drop_k" not in json.dumps(v):
+                    cases.append({"kind": "dc", "fam": fid, "a": st, "gen": "deepcopy"})
+                    cases.append({"kind": "rb", "fam": fid, "a": st, "gen": "rebuild"})
+                cases.append({"kind": "tri", "fam": fid, "a": st, "b": json.loads(json.dumps(st)),
+                              "c": {"cls": "Base", "attrs": {"a0": ["int", 2], "a1": vals[0], "a2": ["str", "b"]}}, "gen": "equal-triple"})
+                cases.append({"kind": "repr", "fam": fid, "gen": "repr-state",
+                              "graph": {"nodes": [["inst", "Base", {"a1": v, "a2": ["long"]}]], "root": 0}})
+                cases.append({"kind": "repr", "fam": fid, "gen": "repr-state",
+                              "graph": {"nodes": [["inst", "Base", {"a1": v}]], "root": 0}})
     # spec subclasses that re-default an inherited attribute of every flag combination: pairs of
     # Sub (and Base) instances that differ in exactly one attribute, deepcopy, rebuild, repr
     rkinds = ["int", "str", "list", "func", "dict", "spec"]
